@@ -276,6 +276,10 @@ func (wr *worldRunner) runCase(prop string, p profile, r *rng.R, stats map[strin
 			} else if info.orbiter && r.Chance(p.pLie) {
 				op.Lie = rng.Pick(r, []int64{1, -1})
 				info.shape += "/balance-lie"
+			} else if info.orbiter && r.Chance(p.pExtPanic) {
+				// an external module (bank, CCTP, Warp, the event service) panics instead of returning an error
+				op.PanicAt = 1 + r.Intn(8)
+				info.shape += fmt.Sprintf("/ext-panic@%d", op.PanicAt)
 			}
 			ops = append(ops, planned{op, info})
 		case x < p.wRecv+p.wMsg:
@@ -590,6 +594,13 @@ func (o *oracle) check0(op world.Op, info pktInfo, obs world.OpObs) []Failure {
 		orbFlow := world.IsOrbiterFlow(op.Pkt)
 		// C14: never a panic
 		if obs.Recv.Class == world.ClassPanic && obs.AppPanic {
+			return fs
+		}
+		if obs.Recv.Class == world.ClassPanic && obs.ExtPanic {
+			// the injected panic of an external module came through: the transaction is aborted, nothing may be left behind
+			if !obs.After.Equal(obs.Before) {
+				fs = append(fs, o.fail("error-ack-state-changed", "an external module panicked, the transaction is aborted, but the committed state changed", desc))
+			}
 			return fs
 		}
 		if obs.Recv.Class == world.ClassPanic {
